@@ -525,7 +525,7 @@ fn main() {
     let shapes: &[(u8, u32, u16, usize, bool, bool, Option<u32>)] = if thorough {
         &[(1, 16, 16, 40, true, false, None), (2, 16, 16, 37, false, false, Some(20)), (2, 8, 16, 48, true, true, Some(64)), (3, 24, 32, 70, false, true, None), (1, 12, 256, 600, true, true, Some(300))]
     } else {
-        &[(1, 16, 16, 40, true, false, None), (2, 8, 16, 37, false, true, Some(40))]
+        &[(1, 16, 16, 40, true, false, None), (2, 8, 16, 37, false, true, Some(64))]
     };
     for (i, (ch, bps, bs, n, declare, seektable, padding)) in shapes.iter().enumerate() {
         let pcm = gen_pcm(&mut rng, PCM_KINDS[i % PCM_KINDS.len()], *ch as usize, *bps, *n);
